@@ -351,9 +351,42 @@ fn render<'a, T: DiffableStr + ?Sized + 'a>(d: &'a TextDiff<'a, 'a, 'a, T>, radi
     Rendered { trickle, trickle_hunks: th.out, writer, display, per_hunk_writer, per_hunk_display, headers_ok, nohint_writer, history_writer: (h1, h2), swaps: similar::verif::swap::swaps() }
 }
 
+/// header values 3..=5: old and new are two VIEWS INTO ONE BUFFER (`c.old`; the length of `c.new`
+/// picks the shape and the cut, see common::alias_views); the header is `header - 3`
+fn alias_of(c: &Case) -> Option<(std::ops::Range<usize>, std::ops::Range<usize>)> {
+    if c.header < 3 {
+        return None;
+    }
+    let t = TextCase { old: c.old.clone(), new: c.new.clone(), tok: 0, alg: c.alg, bytes: c.bytes, opt: 0 };
+    Some(alias_views(&t))
+}
+
+/// the case the oracle judges: for alias cases the two views as separate texts
+fn effective(c: &Case) -> Case {
+    match alias_of(c) {
+        None => c.clone(),
+        Some((ro, rn)) => Case { old: BStr(c.old.0[ro].to_vec()), new: BStr(c.old.0[rn].to_vec()), header: c.header - 3, ..c.clone() },
+    }
+}
+
 fn render_case(c: &Case) -> Result<Rendered, String> {
     let cfg = config(c.alg);
     let header = HEADERS[(c.header % 3) as usize];
+    if let Some((ro, rn)) = alias_of(c) {
+        return guard(|| {
+            similar::verif::swap::reset_swaps();
+            match c.old.as_str() {
+                Some(s) if !c.bytes => {
+                    let d = cfg.diff_lines(&s[ro.clone()], &s[rn.clone()]);
+                    render(&d, c.radius, header)
+                }
+                _ => {
+                    let d = cfg.diff_lines(&c.old.0[ro.clone()], &c.old.0[rn.clone()]);
+                    render(&d, c.radius, header)
+                }
+            }
+        });
+    }
     guard(|| {
         similar::verif::swap::reset_swaps();
         if c.bytes || c.old.as_str().is_none() || c.new.as_str().is_none() {
@@ -485,14 +518,19 @@ fn equal_inputs_with_deadline(c: &Case) -> Result<(), String> {
     Ok(())
 }
 
-pub fn check_case(c: &Case, obs: &mut Obs) -> Verdict {
+pub fn check_case(c0: &Case, obs: &mut Obs) -> Verdict {
+    // rendering uses the case as generated (alias cases: two views of one buffer), the oracle judges
+    // the two texts
+    let eff = effective(c0);
+    let c = &eff;
+    obs.class_if(c0.header >= 3, "old and new are views into one buffer");
     if c.old == c.new {
         if let Err(m) = equal_inputs_with_deadline(c) {
             return Verdict::Fail(format!("{} radius {}: {}", alg_name(c.alg), c.radius, m));
         }
         obs.class("equal inputs (also rendered under expired deadlines)");
     }
-    let r = match render_case(c) {
+    let r = match render_case(c0) {
         Ok(r) => r,
         Err(p) => return Verdict::Fail(format!("rendering: {}", p)),
     };
@@ -517,7 +555,7 @@ pub fn check_case(c: &Case, obs: &mut Obs) -> Verdict {
         Err((Kind::Other, m)) => Verdict::Fail(format!("{} radius {}: {}", alg_name(c.alg), c.radius, m)),
         Err((Kind::Header, m)) => {
             similar::verif::swap::set_repair(true);
-            let r2 = render_case(c);
+            let r2 = render_case(c0);
             let j2 = r2.as_ref().map(|r2| judge(c, r2));
             similar::verif::swap::set_repair(false);
             match j2 {
@@ -544,7 +582,7 @@ fn strat(tier: Tier) -> BoxedStrategy<Case> {
         1 => crate::gen::text_pair(30, false),
     ];
     let radius2 = prop_oneof![Just(0usize), Just(1usize), Just(3usize)];
-    let plain = (texts, 0u8..3, any::<bool>(), radius, 0u8..3).prop_map(|((old, new), alg, bytes, radius, header)| Case { old, new, alg, bytes, radius, header });
+    let plain = (texts, 0u8..3, any::<bool>(), radius, prop_oneof![9 => 0u8..3, 1 => 3u8..6]).prop_map(|((old, new), alg, bytes, radius, header)| Case { old, new, alg, bytes, radius, header });
     // many distinct lines (> 255 ids) in texts of 101..600 lines
     let distinct = (distinct_line_case(tier.pick(300, 600)), radius2.clone(), 0u8..3).prop_map(|(t, radius, header)| Case { old: t.old, new: t.new, alg: t.alg, bytes: t.bytes, radius, header });
     // a very long line (more than 8 KiB) among short ones
@@ -596,7 +634,7 @@ impl Prop for C05 {
     type Case = Case;
     const ID: &'static str = "C05";
     fn rule() -> String {
-        "cases = (old, new line texts, algorithm, str | [u8], context radius in {0,1,2,3,4,7,50}, header in {none, (a,b), names with space/tab/non-ASCII}); texts are line lists with LF/CRLF/CR terminators, optional missing final newline, many repeated lines, diff-looking lines ('-y', '+z', '@@ -1 +1 @@', '\\ No newline at end of file', '--- a'), for [u8] invalid UTF-8; new = independent or mutate(old) at line level; plus texts of 101-300/600 almost-all-distinct lines, texts containing a line of more than 8 KiB, and two fixed 70 000-line texts; enumeration of all pairs of texts of <= 4 (thorough 5) lines over {a LF, b LF, a CRLF, a (unterminated)} x radius {0,1}. Oracle: independent reader (file header, hunk headers, body lines, marker) and strict applier: counts == body counts, starts == true positions, increasing and non-overlapping, every context/deletion line equals the old line at that position, result == new byte for byte, marker exactly on unterminated lines, equal inputs => empty output, each hunk has a change, <= radius context at the edges, deletions before insertions; Display == writer (UTF-8) or == lossy(writer); to_writer into a writer that accepts only 1/3/7/64 bytes per call == to_writer into a Vec; per-hunk rendering and hunk.header() agree; missing_newline_hint(false) == output without marker lines; udiff::unified_diff == builder. Header start/count failures are re-executed with the swap repair on: if they vanish they are known finding D7. Non-trivial = at least one hunk; distinct = distinct serialized case.".into()
+        "1 random case in 10 renders the diff of two VIEWS INTO ONE BUFFER (truncated copy, tail view, adjacent views); cases = (old, new line texts, algorithm, str | [u8], context radius in {0,1,2,3,4,7,50}, header in {none, (a,b), names with space/tab/non-ASCII}); texts are line lists with LF/CRLF/CR terminators, optional missing final newline, many repeated lines, diff-looking lines ('-y', '+z', '@@ -1 +1 @@', '\\ No newline at end of file', '--- a'), for [u8] invalid UTF-8; new = independent or mutate(old) at line level; plus texts of 101-300/600 almost-all-distinct lines, texts containing a line of more than 8 KiB, and two fixed 70 000-line texts; enumeration of all pairs of texts of <= 4 (thorough 5) lines over {a LF, b LF, a CRLF, a (unterminated)} x radius {0,1}. Oracle: independent reader (file header, hunk headers, body lines, marker) and strict applier: counts == body counts, starts == true positions, increasing and non-overlapping, every context/deletion line equals the old line at that position, result == new byte for byte, marker exactly on unterminated lines, equal inputs => empty output, each hunk has a change, <= radius context at the edges, deletions before insertions; Display == writer (UTF-8) or == lossy(writer); to_writer into a writer that accepts only 1/3/7/64 bytes per call == to_writer into a Vec; per-hunk rendering and hunk.header() agree; missing_newline_hint(false) == output without marker lines; udiff::unified_diff == builder. Header start/count failures are re-executed with the swap repair on: if they vanish they are known finding D7. Non-trivial = at least one hunk; distinct = distinct serialized case.".into()
     }
     fn assumptions() -> Vec<String> {
         vec![
